@@ -24,6 +24,7 @@ def main():
     a = sys.argv[1:]
     demo_args = ""
     demo_env = {}
+    base = "HEAD"
     tier = "quick"
     pos = []
     i = 0
@@ -32,6 +33,8 @@ def main():
             demo_args = a[i + 1]; i += 1
         elif a[i] == "--demo-env":
             k, v = a[i + 1].split("=", 1); demo_env[k] = v; i += 1
+        elif a[i] == "--base":
+            base = a[i + 1]; i += 1
         elif a[i] == "--tier":
             tier = a[i + 1]; i += 1
         else:
@@ -44,8 +47,8 @@ def main():
     e = dict(os.environ); e["CARGO_NET_OFFLINE"] = "true"
     sh("git -C /repo worktree remove --force %s" % wt)
     shutil.rmtree(wt, ignore_errors=True)
-    rc, out = sh("git -C /repo worktree add --detach %s HEAD" % wt)
-    res = {"candidate": cand, "properties": pids, "repo_head": sh("git -C /repo rev-parse --short HEAD")[1].strip()}
+    rc, out = sh("git -C /repo worktree add --detach %s %s" % (wt, base))
+    res = {"candidate": cand, "properties": pids, "repo_head": sh("git -C /repo rev-parse --short %s" % base)[1].strip()}
     try:
         rc, out = sh("git apply %s/patch.diff" % cand, cwd=wt)
         res["patch_applies"] = rc == 0
